@@ -270,6 +270,9 @@ func LiveCase(c *core.Case, prop string) {
 	for k, v := range al.Counts {
 		run.Count("live:"+k, v)
 	}
+	if prop == "C04" && len(res.Dead) > 0 {
+		c.Violation("live:consensus-loop-terminated", fmt.Sprintf("consensus routine ended in a live cluster of correct nodes: %v", res.Dead), map[string]interface{}{"validators": n, "powers": powers})
+	}
 	if !res.Reached {
 		run.Count("live_runs_slow_not_judged", 1) // speed is never a verdict
 	} else {
